@@ -493,6 +493,11 @@ class Interp:
             if rel is None:
                 raise
             top = getattr(self, 'unit_node', None)
+            if top is not None and isinstance(top, (ast.FunctionDef, ast.AsyncFunctionDef)) and any(
+                    a.arg == node.id for a in top.args.posonlyargs + top.args.args + top.args.kwonlyargs):
+                # a parameter of the function a REGION unit is cut from, which the sidecar did not need so far
+                yield st, Unknown(f'param:{node.id}')
+                return
             if top is not None and any(isinstance(n, ast.Name) and n.id == node.id and isinstance(n.ctx, ast.Store) for n in ast.walk(top)):
                 # a local that is assigned on other paths only: unbound here (UnboundLocalError) or, inside a cut loop,
                 # whatever an earlier iteration left in it -> an arbitrary value
@@ -530,9 +535,13 @@ class Interp:
                 # library object; whatever is computed from it is unconstrained
                 tree, _ = source.load_module(rel)
                 imported = {(a.asname or a.name).split('.')[0] for n in tree.body if isinstance(n, (ast.Import, ast.ImportFrom)) for a in n.names}
-                if node.id not in imported:
+                assigned = {t.id for n in tree.body if isinstance(n, ast.Assign) for t in n.targets if isinstance(t, ast.Name)}
+                classes = {n.name for n in tree.body if isinstance(n, ast.ClassDef)}
+                if node.id not in imported | assigned | classes:
                     raise Unsupported(f'unbound name {node.id!r}')
-                v = Unknown(f'import:{node.id}')
+                # an imported name, a module-level object that is not a literal, or a class of the module, none of which a
+                # sidecar models: an unknown object
+                v = Unknown(f'module:{node.id}')
             yield st, v
 
     @staticmethod
@@ -633,6 +642,9 @@ class Interp:
             yield s, self.concat_strs(out)
 
     def format_value(self, st, v, conversion, spec):
+        if isinstance(v, Unknown):
+            v.note(self, st)
+            return sym.fresh(STR, 'formatted_unknown')      # unknown state formatted into a string: an arbitrary string
         if conversion not in (-1, 115) or spec:
             # !r or format specs: an opaque but deterministic function of the value
             f = self.uf(f'fmt_{conversion}_{spec}', self.ty_of(v), STR)
@@ -1295,6 +1307,8 @@ class Interp:
                     yield s2, ('raise', rhs.exc)
                     continue
                 from . import ops
+                if getattr(self, 'on_augassign', None) is not None:
+                    self.on_augassign(self, s2, node, cur, rhs)       # sidecar observer (e.g. "which piece is appended when")
                 for s3, r in ops.augop(self, s2, node.op, cur, rhs):
                     if isinstance(r, Raised):
                         yield s3, ('raise', r.exc)
@@ -1468,6 +1482,7 @@ class Interp:
             if spec is None:
                 raise Unsupported(f'loop {sel} over symbolic iterable without invariant')
             it = ops.iterspec(self, s, itv)
+            s.ghost['$iter_' + sel] = itv        # what the loop walks (sidecars refer to it by loop, not by variable name)
             yield from self.cut_loop(node, s, spec, sel, it)
 
     ex_AsyncFor = ex_For
